@@ -70,6 +70,12 @@ CLAIMED["C15"] = dict(
    text="C06's generator plus exactly one mutation (RSV bit, reserved data/control opcode, masked frame, FIN-less control, control payload 126+, continuation with nothing to continue, data frame inside a fragmented message, frame over the maximum, message over the maximum) at a tape-chosen frame. "
         "Oracle: messages before it are delivered unchanged, the read that meets it reports an error, nothing of it is delivered as data, no panic; after a framing violation Write/AsyncWrite/WriteFrame are refused and the next flush puts a Close with status 1002 (checked with the independent parser, no data frame after it) on the wire.",
    note="Frames after the violating one are not judged (the statement does not). Fragmentation-rule violations are generated only for the message-level APIs.")
+CLAIMED["C16"] = dict(
+   technique="deterministic simulation: seeded write histories over transports with scripted partial-write behaviour, independent wire parser",
+   text="Histories of Write/AsyncWrite (0,1,125,126,65535,65536,max,max+1,random sizes so pooled frames are reused after longer and shorter ones; directed: all ordered pairs of 6 size classes), WriteFrame/AsyncWriteFrame with caller-built frames with and without SetPayload, "
+        "pings that elicit automatic Pongs, Close, with the deterministic frame pool emptied at tape-chosen moments; transports: production stack with small send buffers/short writes and the scripted stream accepting 1..n bytes or deferring. "
+        "Oracle: the complete outgoing byte stream parses (independent RFC 6455 parser) into exactly the submitted frames in order: mask bit, 4-byte key, un-masked payload equal to the caller's bytes, minimal length encoding, no trailing bytes; an over-max message returns an error and writes nothing.",
+   note="One application write in flight at a time here (overlapping writes are C17). A would-block from a synchronous Write is not generated. An all-zero masking key is not judged (the statement does not require unpredictability).")
 
 NOT_YET = {
 }
